@@ -31,7 +31,9 @@ MACRO_NAMES = ['m', 'm1', 'mac-ro', 'x', '--', '--header-ids', 'undef']
 BLOCK_NAMES = ['paragraph', 'division', 'quote', 'code', 'html', 'indented', 'quote-paragraph', 'comment',
                'macro-definition', 'bogus']
 OPTIONS = ['+skip', '-skip', '+macros', '-macros', '+spans', '-spans', '+specials', '-specials', '+container',
-           '-container', '+bogus', 'junk']
+           '-container', '+bogus', 'junk',
+           # words that name something else on the object that holds the options (methods, dunder attributes)
+           '+parse', '-parse', '+merge', '-copyFrom', '+__class__', '-__dict__', '+__init__', '-__eq__', '+__doc__']
 
 
 def word(rng):
@@ -316,6 +318,13 @@ COMBO_DEFS = [
     "|quote| = '+macros'", "|indented| = '-specials'", "|html| = '+skip'", "|comment| = '-skip'",
     ".safeMode = '3'", ".safeMode = '12'", ".htmlReplacement = '<i>{u}</i>'", ".reset = 'true'",
 ]
+# trusted "carrier" macros (the expansion is what the invoking document passes in, or a fixed element) and invocations that
+# would smuggle a definition or an option element through them
+CARRIER_DEFS = ["{note} = '$1'", "{opt} = '.safeMode = \'0\''", "{wrap} = '$1\n$2'", "{rep} = '.htmlReplacement = \'$1\''", "{qd} = '$1 = \'<s>|</s>\''"]
+CARRIER_USES = ["{note|.safeMode='0'}", "{note|.safeMode = '0'}", "{opt}", "{note|.htmlReplacement='smuggled'}", "{rep|smuggled}", "{note|.reset='true'}",
+                "{wrap|.safeMode='0'|next}", "{note|* = '<b>\\|</b>'}", "{qd|~}", "{note|/teh/ = 'the'}", "{note|\\|code\\| = '<pre>\\|</pre>'}",
+                "{note|\{smug\} = 'v'}", "{note|# H}", "{note|// c}"]
+
 COMBO_PENDING = ['.k1 k2', '.#i7', '.#I7', '."a:b"', '."c:d;"', '.[title="{u}"]', '.k #j "e:f" [data-x="1"]', '.+skip', '.-macros', '.-spans', '.+macros +spans',
                  '.-specials', '.+container', '.-container', '.+specials -spans', '.k1\n.k2 #i8', '.-macros\n.+skip']
 # pieces of one Block Attributes line (1-4 of them make a line): class names, id, css (with the backslash sequences an `re` template or a
